@@ -82,7 +82,7 @@ def load_findings():
         return []
 
 
-def run_shards(binary, spec, pid, tier, seed, scratch, replay=None):
+def run_shards(binary, spec, pid, tier, seed, scratch, replay=None, part_index=0):
     t = spec["tiers"][tier]
     shards = 1 if replay else t.get("shards", 16)
     outdir = os.path.join(scratch, "out")
@@ -91,23 +91,26 @@ def run_shards(binary, spec, pid, tier, seed, scratch, replay=None):
     prop_no = int(re.sub(r"\D", "", pid) or 0)
     for sh in range(shards):
         e = env_base()
-        e.update({"VERIF_OUT": outdir, "VERIF_SHARD": str(sh), "VERIF_SHARDS": str(shards), "VERIF_TIER": tier,
+        e.update({"VERIF_OUT": outdir, "VERIF_SHARD": str(sh + 100 * part_index), "VERIF_SHARD_INDEX": str(sh), "VERIF_SHARDS": str(shards), "VERIF_TIER": tier,
                   "VERIF_SEED": str(seed), "VERIF_KF": os.path.join(VERIF, "known_findings.json"),
                   "VERIF_REPO": repo(), "VERIF_DIR": VERIF, "VERIF_SCRATCH_DIR": scratch,
                   "GOMAXPROCS": str(t.get("gomaxprocs", 2)), "GOGC": str(t.get("gogc", 400)), "VERIF_N": str(t.get("n", 0))})
         e.update({k: str(v) for k, v in t.get("env", {}).items()})
         if replay:
             e["VERIF_REPLAY"] = os.path.abspath(replay)
-        sseed = splitmix(seed, prop_no, sh)
+        sseed = splitmix(seed, prop_no, sh + 100 * part_index)
         cmd = [binary, "-test.run", spec["run"], "-test.v", "-test.timeout", "%ds" % t.get("timeout", 3000),
                "-rapid.checks=%d" % t.get("checks", 100), "-rapid.seed=%d" % sseed, "-rapid.nofailfile",
                "-rapid.shrinktime=%s" % t.get("shrinktime", "20s")]
         if t.get("steps"):
             cmd.append("-rapid.steps=%d" % t["steps"])
         cmd += t.get("args", [])
-        logf = open(os.path.join(outdir, "log-%d.txt" % sh), "w")
+        logf = open(os.path.join(outdir, "log-%d.%d.txt" % (part_index, sh)), "w")
         procs.append((sh, subprocess.Popen(cmd, cwd=os.path.join(HARNESS, spec["pkg"]), env=e, stdout=logf, stderr=subprocess.STDOUT), logf))
-    deadline = time.time() + t.get("timeout", 3000) + 60
+    return procs, outdir, time.time() + t.get("timeout", 3000) + 60
+
+
+def wait_shards(procs, deadline):
     results = {}
     for sh, p, logf in procs:
         try:
@@ -117,7 +120,7 @@ def run_shards(binary, spec, pid, tier, seed, scratch, replay=None):
             rc = -9
         logf.close()
         results[sh] = rc
-    return results, outdir
+    return results
 
 
 def merge(pid, spec, tier, seed, outdir, results, wall):
@@ -220,23 +223,43 @@ def cmd_check(pid, tier, replay=None):
     t0 = time.time()
     scratch = make_scratch()
     try:
-        binary = build(scratch, spec["pkg"], race=spec.get("race", False))
-        if binary is None:
-            return 2
-        for pre in spec.get("prebuild", []):
-            if not pre(scratch, repo(), env_base()):
-                print("HARNESS-ERROR: prebuild step failed")
+        parts = spec.get("parts") or [spec]
+        results = {}
+        started = []
+        outdir = os.path.join(scratch, "out")
+        want = 0
+        for pi, part in enumerate(parts):
+            ps = dict(spec)
+            ps.update(part)
+            binary = build(scratch, ps["pkg"], race=ps.get("race", False))
+            if binary is None:
                 return 2
-        results, outdir = run_shards(binary, spec, pid, tier, seed, scratch, replay)
+            for pre in ps.get("prebuild", []):
+                if not pre(scratch, repo(), env_base()):
+                    print("HARNESS-ERROR: prebuild step failed")
+                    return 2
+            procs, outdir, deadline = run_shards(binary, ps, pid, tier, seed, scratch, replay, part_index=pi)
+            started.append((pi, procs, deadline))
+            if ps.get("rapid", True) and not replay:
+                want += ps["tiers"][tier].get("checks", 0) * ps["tiers"][tier].get("shards", 16)
+        for pi, procs, deadline in started:
+            for sh, rc in wait_shards(procs, deadline).items():
+                results["%d.%d" % (pi, sh)] = rc
         wall = time.time() - t0
+        # a race-detector report fails the binary without the property noticing: surface it as the violation
+        for lf in sorted(glob.glob(os.path.join(outdir, "log-*.txt"))):
+            txt = open(lf, errors="replace").read()
+            if "WARNING: DATA RACE" in txt:
+                i = txt.index("WARNING: DATA RACE")
+                json.dump({"property": pid, "kind": "data-race", "message": "the race detector reported a data race", "case": {"race_report": txt[i:i + 6000]}},
+                          open(os.path.join(outdir, "violation-%s-race-%s.json" % (pid, os.path.basename(lf)[4:-4])), "w"))
         viols = collect_violations(pid, outdir)
         tot = merge(pid, spec, tier, seed, outdir, results, wall)
         bad = {sh: rc for sh, rc in results.items() if rc != 0}
         infra = []
         if not viols:
             for sh, rc in bad.items():
-                infra.append("shard %d exited %s without leaving a violation file:\n%s" % (sh, rc, tail(os.path.join(outdir, "log-%d.txt" % sh))))
-        want = 0 if replay else spec["tiers"][tier].get("checks", 0) * spec["tiers"][tier].get("shards", 16)
+                infra.append("shard %s exited %s without leaving a violation file:\n%s" % (sh, rc, tail(os.path.join(outdir, "log-%s.txt" % sh))))
         extra = {}
         if spec.get("rapid", True) and not replay and not viols and not infra and tot["rapid_passed"] < want:
             infra.append("rapid reported %d passed tests, %d requested (truncated run)" % (tot["rapid_passed"], want))
